@@ -928,3 +928,7 @@ mod tests {
         assert_eq!(buf, [0x80, 51, 0, 0]);
     }
 }
+
+#[cfg(feature = "pendulum_project_ntpd_rs_verif")]
+#[path = "/verif/hooks/ntp-proto/nts_record.rs"]
+pub mod verif_hooks;
